@@ -423,6 +423,28 @@ func c33State(c *Case, wds []c33Wd, hasCap bool) (common.LedgerState, error) {
 	return st, nil
 }
 
+var c33HistCache = map[string]ledger.Transaction{}
+
+// c33HistoryTx is a fixed other transaction of the era (a non-zero withdrawal
+// from key 5, one input that is in nobody's UTxO) used by the history family.
+func c33HistoryTx(era Era, net uint8) ledger.Transaction {
+	k := fmt.Sprintf("%s/%d", era, net)
+	if t, ok := c33HistCache[k]; ok {
+		return t
+	}
+	tx := &TxSpec{Era: era, Net: net, Fee: 400_000}
+	tx.Ins = []In{{TxID: hash256([]byte("c33/history/in")), Ix: 0, Key: 1, V: Val{Coin: 50_000_000}}}
+	tx.Wdrl = []Wd{{Key: 5, Amount: 3}}
+	tx.Outs = []Out{{Addr: payAddr(net, 2), V: Val{Coin: 50_000_000 + 3 - tx.Fee}}}
+	raw, _ := tx.Encode()
+	dtx, err := decodeTx(era, raw)
+	if err != nil {
+		panic(err)
+	}
+	c33HistCache[k] = dtx
+	return dtx
+}
+
 func c33Desc(wds []c33Wd) string {
 	var parts []string
 	for _, w := range wds {
@@ -439,7 +461,7 @@ func c33Desc(wds []c33Wd) string {
 // c33Eval runs the single rule and (when the parameter type fits the era's
 // rule list) the full list, judges both, records evidence.
 func c33Eval(rec *evi.Recorder, where string, c *Case, dtx ledger.Transaction, raw []byte, wds []c33Wd,
-	pv uint, ppKind string, isValid bool, kind c33StateKind, hasCap bool, report func(key, what string, cs any)) {
+	pv uint, ppKind string, isValid bool, kind c33StateKind, hasCap bool, pur *purity, hist bool, report func(key, what string, cs any)) {
 	era := c.Tx.Era
 	p := c.P
 	p.Major = pv
@@ -448,8 +470,30 @@ func c33Eval(rec *evi.Recorder, where string, c *Case, dtx ledger.Transaction, r
 	if err != nil {
 		panic(err)
 	}
+	pur.watchParams(pp)
+	pur.watchState(ls)
 	want := c33Ref(pv, isValid, hasCap, c.Tx.Net, wds)
-	gotRule := c33Classify(conway.UtxoValidateWithdrawals(dtx, c.Slot, ls, pp))
+	ruleErr := pur.twice("conway.UtxoValidateWithdrawals", func() error { return conway.UtxoValidateWithdrawals(dtx, c.Slot, ls, pp) })
+	gotRule := c33Classify(ruleErr)
+	if hist {
+		// history independence: validate another transaction on the same state /
+		// parameter objects, then this one again; every verdict must equal the
+		// one obtained on fresh objects
+		other := c33HistoryTx(era, c.Tx.Net)
+		usedOther := conway.UtxoValidateWithdrawals(other, c.Slot, ls, pp)
+		var usedOtherFull error
+		fullOK := !(era == Conway && ppKind != "conway")
+		if fullOK {
+			usedOtherFull = common.VerifyTransaction(other, c.Slot, ls, pp, rulesFor(era))
+		}
+		pur.history("conway.UtxoValidateWithdrawals on this transaction after another one", ruleErr, conway.UtxoValidateWithdrawals(dtx, c.Slot, ls, pp))
+		ls2, _ := c33State(c, wds, hasCap)
+		pp2 := c33Params(p, ppKind)
+		pur.history("conway.UtxoValidateWithdrawals on the other transaction", conway.UtxoValidateWithdrawals(other, c.Slot, ls2, pp2), usedOther)
+		if fullOK {
+			pur.history("VerifyTransaction on the other transaction", common.VerifyTransaction(other, c.Slot, ls2, pp2, rulesFor(era)), usedOtherFull)
+		}
+	}
 	rec.Eval()
 	rec.Class(fmt.Sprintf("%s:want_%s", where, want.Kind))
 	rec.Class(fmt.Sprintf("%s:rule_%s", where, gotRule.Class))
@@ -495,7 +539,7 @@ func c33Eval(rec *evi.Recorder, where string, c *Case, dtx ledger.Transaction, r
 			return
 		}
 	}
-	full := common.VerifyTransaction(dtx, c.Slot, ls, pp, rulesFor(era))
+	full := pur.twice("VerifyTransaction", func() error { return common.VerifyTransaction(dtx, c.Slot, ls, pp, rulesFor(era)) })
 	gotFull := c33Classify(full)
 	rec.Eval()
 	rec.Class(fmt.Sprintf("%s:full_%s", where, gotFull.Class))
@@ -517,7 +561,7 @@ func c33Eval(rec *evi.Recorder, where string, c *Case, dtx ledger.Transaction, r
 
 func TestC33(t *testing.T) {
 	rec := evi.New(t, "C33", evi.Exploration,
-		"grid (x 2 networks x 5 reward-account credential hashes: a real key, all-zero, all-0xff, 0..01, 01..0): tx era {conway,dijkstra} x parameter type {conway,dijkstra} x PV 0..20 x amount {0,7} x state {delegated,undelegated,no-capability} x IsValid {true,false}, one key-hash withdrawal from a registered account, harness-built signed transactions decoded by the library; each point through conway.UtxoValidateWithdrawals and (where the parameter type fits) the era's full UtxoValidationRules via VerifyTransaction; oracle = reference table on result and error type. rapid part: generated valid transactions (certs, mint, proposals, several withdrawals incl. zero amounts, script-hash and unregistered accounts, accounts whose hash is a pool/DRep id, accounts with special or random credential bytes) at PV 0..20; accessor oracle: Address.StakeCredential() of every decoded withdrawal address and of every Shelley address form x network x special hash returns exactly the credential bytes/type the harness encoded, and none for pointer/enterprise addresses. non-trivial = at least one key-hash withdrawal from a registered account; distinct by (era, pp type, pv, IsValid, state, withdrawal set, tx hash)")
+		"grid (x 2 networks x 5 reward-account credential hashes: a real key, all-zero, all-0xff, 0..01, 01..0): tx era {conway,dijkstra} x parameter type {conway,dijkstra} x PV 0..20 x amount {0,7} x state {delegated,undelegated,no-capability} x IsValid {true,false}, one key-hash withdrawal from a registered account, harness-built signed transactions decoded by the library; each point through conway.UtxoValidateWithdrawals and (where the parameter type fits) the era's full UtxoValidationRules via VerifyTransaction; oracle = reference table on result and error type. rapid part: generated valid transactions (certs, mint, proposals, several withdrawals incl. zero amounts, script-hash and unregistered accounts, accounts whose hash is a pool/DRep id, accounts with special or random credential bytes) at PV 0..20; accessor oracle: Address.StakeCredential() of every decoded withdrawal address and of every Shelley address form x network x special hash returns exactly the credential bytes/type the harness encoded, and none for pointer/enterprise addresses. purity: every rule / rule-list call is made twice on the same objects (same verdict and error types demanded), the decoded transaction's observable state (bytes, hash, fee, inputs, outputs, withdrawals, witnesses, ...), the parameter objects and the mock ledger state must be unchanged afterwards, and verdicts on objects that validated another transaction before must equal those on fresh objects. non-trivial = at least one key-hash withdrawal from a registered account; distinct by (era, pp type, pv, IsValid, state, withdrawal set, tx hash)")
 	defer rec.Finish()
 	rec.Assume("ed25519/blake2b from x/crypto are trusted; the library's era decoders are trusted to report the withdrawals the harness encoded (checked: decoded withdrawal count equals the encoded count)",
 		"a ledger state 'that cannot answer the delegation query' is one that does not implement common.DRepDelegationState",
@@ -559,15 +603,18 @@ func TestC33(t *testing.T) {
 						w := acct
 						w.Amount, w.Registered = amount, true
 						c33WithdrawalAccessors(rec, "grid", dtx, net, []c33Wd{w}, violation)
+						pur := newPurity(rec, "C33", era.String(), dtx, violation)
 						for _, ppKind := range []string{"conway", "dijkstra"} {
 							for pv := uint(0); pv <= 20; pv++ {
 								for _, kind := range []c33StateKind{c33Delegated, c33Undelegated, c33NoCap} {
 									w.Delegated = kind == c33Delegated
-									c33Eval(rec, "grid", c, dtx, raw, []c33Wd{w}, pv, ppKind, !invalid, kind, kind != c33NoCap, violation)
+									c33Eval(rec, "grid", c, dtx, raw, []c33Wd{w}, pv, ppKind, !invalid, kind, kind != c33NoCap,
+										pur, pv >= 9 && pv <= 12, violation)
 									points++
 								}
 							}
 						}
+						pur.done()
 					}
 				}
 			}
@@ -725,6 +772,8 @@ func TestC33(t *testing.T) {
 			c33CheckAddr(rec, "noise", typ, uint8(rapid.IntRange(0, 1).Draw(rt, "addrNet")), pay, stake, class, ptr, failRT)
 		}
 		rec.Class(fmt.Sprintf("noise:%s:%s:valid=%v:%s", era, pvBand(pv), !invalid, kind))
-		c33Eval(rec, "noise", c, dtx, raw, wds, pv, ppKind, !invalid, kind, kind != c33NoCap, failRT)
+		pur := newPurity(rec, "C33", era.String(), dtx, failRT)
+		c33Eval(rec, "noise", c, dtx, raw, wds, pv, ppKind, !invalid, kind, kind != c33NoCap, pur, true, failRT)
+		pur.done()
 	})
 }
